@@ -144,7 +144,7 @@ func c08Run(w *Worker, tape *simrt.Tape) *Outcome {
 		releaseMemory()
 		kind := tape.Choose(simrt.SFault, 9)
 		if bombs {
-			kind = []int{2, 6, 7}[tape.Choose(simrt.SFault, 3)]
+			kind = []int{2, 6, 7, 9}[tape.Choose(simrt.SFault, 4)]
 			o.fault("allocation_bomb_prefix")
 		}
 		raw := tape.Choose(simrt.SFault, 2)
@@ -175,9 +175,34 @@ func c08Run(w *Worker, tape *simrt.Tape) *Outcome {
 					k = r.Off + 3
 				}
 			}
-			data[k] ^= byte(1 + tape.Choose(simrt.SFault, 255))
+			x := byte(1 + tape.Choose(simrt.SFault, 255))
+			for _, r := range wr.Log {
+				if r.Len >= 32 && k == r.Off {
+					// the top bits of an element's first byte are encoding metadata: changing them
+					// desynchronises the stream and turns point data into a length prefix (an
+					// allocation bomb): those flips run in the bombs batch (kind 9)
+					if x &= 0x1f; x == 0 {
+						x = 1
+					}
+				}
+			}
+			data[k] ^= x
 			fdesc = fmt.Sprintf("flip byte %d of proof(raw=%d)", k, raw)
 			o.fault("byte_flip")
+		case 9: // metadata bits of an element's first byte (bombs batch only)
+			var els []simrt.WriteRec
+			for _, r := range wr.Log {
+				if r.Len >= 32 {
+					els = append(els, r)
+				}
+			}
+			if len(els) == 0 {
+				continue
+			}
+			r := els[tape.Choose(simrt.SFault, len(els))]
+			data[r.Off] ^= byte(0x20 << tape.Choose(simrt.SFault, 3))
+			fdesc = fmt.Sprintf("metadata bits of the element at %d of proof(raw=%d)", r.Off, raw)
+			o.fault("element_metadata_flip")
 		case 2: // length prefix
 			var pre []simrt.WriteRec
 			for _, r := range wr.Log {
